@@ -1335,6 +1335,14 @@ impl InterfaceInner {
                             return Ok(());
                         }
 
+                        // Sockets wait for the shared fragmentation buffer; a reply generated
+                        // during ingress cannot, and must not overwrite the fragments of an
+                        // earlier packet that are still to go out.
+                        if !frag.finished() {
+                            net_debug!("dropping, fragmentation buffer is still in use");
+                            return Ok(());
+                        }
+
                         #[cfg(feature = "medium-ethernet")]
                         {
                             frag.ipv4.dst_hardware_addr = dst_hardware_addr;
